@@ -67,6 +67,8 @@ FIXED_LAYOUTS = {
     'short2': [(1, 7), (2, 4)],             # coarser retention LESS than one coarser step longer than the finer one
     'short3': [(1, 10), (4, 3), (12, 10)],
     'short3b': [(2, 5), (6, 2), (12, 4)],
+    'ratio512': [(1, 512), (512, 2)],       # more finer points per coarser slot than fit one 4 KiB page; tiny coarser archive
+    'ratio600': [(1, 600), (600, 3)],
     'three': [(1, 8), (4, 8), (16, 4)],
     'four': [(3, 2), (6, 3), (18, 2), (36, 4)],
     'single5': [(1, 5)],
